@@ -515,7 +515,9 @@ pub fn run(case: &Value) -> Value {
       if p.resolved >= 0 {
         let need = p.resolved as usize;
         if !which.iter().any(|j| *j >= need) {
-          let sig = if !p.limbo.is_empty() {
+          // the commit is lost because the stored manifest is too old: is the manifest that
+          // would carry it in a transaction whose request succeeded but which has not completed?
+          let sig = if p.limbo.iter().any(|k| base_name(k) == "MANIFEST.json") {
             format!("resolved-lost.success-before-complete.{order_tag}")
           } else {
             format!("resolved-lost.other.{order_tag}")
